@@ -1,5 +1,6 @@
 import BeyondVerif.Lemmas.Mat3
 import BeyondVerif.Lemmas.Chain
+import BeyondVerif.Lemmas.FrameEdges
 import BeyondVerif.Generated.OrientProviders
 import BeyondVerif.Props.C20
 import Mathlib.Analysis.SpecialFunctions.Trigonometric.Deriv
@@ -256,9 +257,6 @@ theorem convert_inverse {α : Type} (A : Alg α) (edge : Nat → Nat → Option 
 leaf; so is every extension by stations / orbit-attached orientations (each adds one fresh node) -/
 theorem orient_leafGrown : leafGrown Generated.orientHist.reverse = true := by decide
 
-/-- the 6×6 state matrices with the product, unit and inverse used by the model -/
-noncomputable def algT6 : Alg T6 := ⟨T6.mul, T6.one, T6.inv, T6.mul_assoc, T6.one_mul, T6.mul_one⟩
-
 /-- what `Orientation.convert_to` returns in the model, unfolded: a path of the routing model and the chain along it -/
 theorem orientConvert_spec (D : DateArgs) (names : List String) (hist : List (Nat × Nat)) (extras : List Extra)
     (a b : Nat) (x : T6) (h : orientConvert D names hist extras a b = some x) :
@@ -305,6 +303,76 @@ theorem transform_roundtrip_same_centre (D : DateArgs) (names : List String) (hi
     (hx : orientConvert D names hist extras a b = some x) (hy : orientConvert D names hist extras b a = some y)
     (p v : V3) : y.apply (x.apply p v).1 (x.apply p v).2 = (p, v) := by
   rw [← T6.apply_mul, orientConvert_inverse D names hist extras hE hl a b x y hx hy, T6.apply_one]
+
+/-! ## the hypothesis `EdgesOK` discharged for the model's own edge function -/
+
+/-- **every provider of class Orientation returns an invertible matrix** (the eight time-dependent ones are proper rotations, the two
+constant ones have a non-zero determinant by `norm_num` on the regenerated decimals) -/
+theorem builtin_edges_invertible (D : DateArgs) (hcio : (cioXY D).1 ^ 2 + (cioXY D).2 ^ 2 < 1) :
+    ∀ na nb M, edgeBuiltin D na nb = some M → M3.det M.r ≠ 0 := by
+  have rot : ∀ m : M3, M3.IsRotation m → M3.det m ≠ 0 := fun m hm => by rw [hm.2.2]; exact one_ne_zero
+  intro na nb M h
+  unfold edgeBuiltin at h
+  split_ifs at h <;> simp only [Option.some.injEq] at h <;> subst h <;> simp only [expand]
+  · exact rot _ (rot3_isRotation _)
+  · exact rot _ (rot3_isRotation _)
+  · exact rot _ (nutation80_isRotation _ _ _)
+  · exact rot _ (precession80_isRotation _)
+  · exact rot _ (polar80_isRotation _)
+  · exact rot _ (polar10_isRotation _)
+  · exact rot _ (rot3_isRotation _)
+  · simp only [cio10]; exact rot _ (cioMat_isRotation _ _ _ hcio)
+  · exact const_matrices_invertible.1
+  · exact const_matrices_invertible.2
+
+/-- **`EdgesOK` holds for the concrete `edge` function of the model** — built-in providers (whatever the date arguments, X² + Y² < 1)
+plus any well-formed list of dynamically registered orientations (`ExtrasOK`: fresh node, hanging below an earlier one, invertible
+matrix).  Assembled from `provider_isRotation` / `const_matrices_invertible` (through `builtin_edges_invertible`),
+`edgeBuiltin_oneDir` and Lemmas/FrameEdges.lean `edgesOK_edge`. -/
+theorem edgesOK_model (D : DateArgs) (hcio : (cioXY D).1 ^ 2 + (cioXY D).2 ^ 2 < 1) (names : List String) (extras : List Extra)
+    (hX : ExtrasOK names extras) : EdgesOK algT6 (edge D names extras) :=
+  edgesOK_edge D names extras (builtin_edges_invertible D hcio) hX
+
+/-- a station orientation and a QSW orientation on an orbit with `pos × vel ≠ 0` form a well-formed list of extras -/
+example : ExtrasOK Generated.orientNames
+    [⟨10, 0, topoMat 0.76 0.025⟩, ⟨11, 4, lofMat false ⟨7000000, 0, 0⟩ ⟨0, 7500, 100⟩⟩] := by
+  refine ⟨?_, ?_, ?_⟩
+  · intro e he; simp only [List.mem_cons, List.not_mem_nil, or_false] at he; rcases he with rfl | rfl <;> decide
+  · intro e he; simp only [List.mem_cons, List.not_mem_nil, or_false] at he; rcases he with rfl | rfl <;> decide
+  · intro e he
+    simp only [List.mem_cons, List.not_mem_nil, or_false] at he
+    rcases he with rfl | rfl
+    · rw [(topoMat_isRotation _ _).2.2]; exact one_ne_zero
+    · rw [(lofMat_isRotation false _ _ (by simp only [V3.dot, V3.cross]; norm_num)).2.2]; exact one_ne_zero
+
+/-- **`Orientation.convert_to`: A→B→C = A→C, unconditionally for the model's edge function**: built-in tree + stations + orbit-attached
+orientations, every date argument with X² + Y² < 1, every three frames for which the three conversions are defined. -/
+theorem orientConvert_compose_model (D : DateArgs) (hcio : (cioXY D).1 ^ 2 + (cioXY D).2 ^ 2 < 1) (names : List String)
+    (hist : List (Nat × Nat)) (extras : List Extra) (hX : ExtrasOK names extras) (hl : leafGrown hist.reverse = true)
+    (a b c : Nat) (x y z : T6)
+    (hx : orientConvert D names hist extras a b = some x) (hy : orientConvert D names hist extras b c = some y)
+    (hz : orientConvert D names hist extras a c = some z) : z = T6.mul y x :=
+  orientConvert_compose D names hist extras (edgesOK_model D hcio names extras hX) hl a b c x y z hx hy hz
+
+/-- **`Orientation.convert_to`: A→B→A = identity, unconditionally for the model's edge function** -/
+theorem orientConvert_inverse_model (D : DateArgs) (hcio : (cioXY D).1 ^ 2 + (cioXY D).2 ^ 2 < 1) (names : List String)
+    (hist : List (Nat × Nat)) (extras : List Extra) (hX : ExtrasOK names extras) (hl : leafGrown hist.reverse = true)
+    (a b : Nat) (x y : T6)
+    (hx : orientConvert D names hist extras a b = some x) (hy : orientConvert D names hist extras b a = some y) :
+    T6.mul y x = T6.one :=
+  orientConvert_inverse D names hist extras (edgesOK_model D hcio names extras hX) hl a b x y hx hy
+
+/-- the built-in tree extended by a station (node 10 below ITRF) and an orbit-attached orientation (node 11 below EME2000) is grown
+leaf by leaf -/
+example : leafGrown (Generated.orientHist ++ [(0, 10), (4, 11)]).reverse = true := by decide
+
+/-- **orbit-attached orientations are proper rotations**: `to_local(orient, sv, expanded=False).T` for QSW and TNW (rows translated from
+beyond/frames/local.py on every run), every state with `pos × vel ≠ 0` -/
+theorem lof_isRotation (tnw : Bool) (p v : V3) (h : V3.dot (V3.cross p v) (V3.cross p v) ≠ 0) :
+    M3.IsRotation (lofMat tnw p v) := lofMat_isRotation tnw p v h
+
+example : M3.IsRotation (lofMat true ⟨7000000, 0, 0⟩ ⟨0, 7500, 100⟩) :=
+  lof_isRotation true _ _ (by simp only [V3.dot, V3.cross]; norm_num)
 
 /-! ## kinematics -/
 
